@@ -118,14 +118,6 @@ def r_keykinds(ctx):
                    "the pair branch does not use exactly the two points of the key", loc(c.fn, body[0]))
 
 
-def _indices_used(body, arrays):
-    out = []
-    for n in ast.walk(ast.Module(body=body, type_ignores=[])):
-        if isinstance(n, ast.Subscript) and dotted(n.value) in arrays:
-            out.append([src(n.slice)])
-        if isinstance(n, ast.Call) and call_name(n) == "append" and dotted(n.func.value) in arrays:
-            out.append([src(n.args[0])])
-    return out
 
 
 def _calls_eval_on(body, name):
@@ -139,176 +131,21 @@ def _calls_eval_on(body, name):
 # R-TRANSL
 # ---------------------------------------------------------------------------------------------------
 def r_transl(ctx):
+    """Both translators are decided as programs on abstract expressions (rules/translprog.py); here only: the MOSEK back-end uses the sparse one."""
+    from . import translprog
     repo = ctx.repo
-    mod = repo.module("PEPit/tools/expressions_to_matrices.py")
-    dense = mod.functions.get("expression_to_matrices")
-    sparse = mod.functions.get("expression_to_sparse_matrices")
-    if dense is None or sparse is None:
-        raise AnalysisError("translators not found in PEPit/tools/expressions_to_matrices.py")
-    cons = {qualname(c.fn): c for c in find_consumers(repo)}
-    # ---- dense
-    ctx.unit("expression_to_matrices")
-    c = cons.get("expression_to_matrices")
-    if c is None:
-        raise AnalysisError("dense translator has no key-kind dispatch")
-    expr = params_of(dense)[0]
-    roles = _array_roles(dense)            # name -> 'F' | 'G' | 'const'
-    ret = [r for r in ast.walk(dense) if isinstance(r, ast.Return)]
-    def role_of(name, depth=0):
-        if name in roles:
-            return roles[name]
-        if depth < 3:
-            for s2 in dense.body:
-                if isinstance(s2, ast.Assign) and dotted(s2.targets[0]) == name:
-                    rs = {role_of(n.id, depth + 1) for n in ast.walk(s2.value) if isinstance(n, ast.Name) and n.id != name and n.id not in ("np",)}
-                    rs.discard(None)
-                    if len(rs) == 1:
-                        return rs.pop()
-        return None
-    order = [role_of(e.id) for e in ret[0].value.elts] if len(ret) == 1 and isinstance(ret[0].value, ast.Tuple) else None
-    ok = order == ["G", "F", "const"]
-    ctx.ob("R-TRANSL", "expression_to_matrices::returns (G weights, F weights, constant)", ok,
-           "returns (Gweights, Fweights, constant) sized by the class counters" if ok else "returns roles %s" % order, loc(dense, dense))
-    stores = {}
-    for kind, body in c.kinds.items():
-        for s in body:
-            if isinstance(s, (ast.Assign, ast.AugAssign)):
-                t = s.targets[0] if isinstance(s, ast.Assign) else s.target
-                base = t.value if isinstance(t, ast.Subscript) else t
-                r = roles.get(dotted(base))
-                if r:
-                    stores.setdefault(kind, []).append((r, s))
-    want = {"leaf": "F", "pair": "G", "const": "const"}
-    for kind, role in want.items():
-        st = stores.get(kind, [])
-        okk = len(st) == 1 and st[0][0] == role and dotted(st[0][1].value) == c.weight and \
-            (isinstance(st[0][1], ast.Assign) or isinstance(st[0][1].op, ast.Add))
-        ctx.ob("R-TRANSL", "expression_to_matrices::%s weight" % kind, okk,
-               "the coefficient of a %s key is stored unchanged in the %s data" % (kind, role) if okk else
-               "%s key handled by %s" % (kind, [norm_stmt(s)[:60] for _, s in st]), loc(dense, c.kinds[kind][0]))
-    # leaf expression passed directly
-    leaf_if = [s for s in dense.body if isinstance(s, ast.If) and isinstance(s.test, ast.Call) and call_name(s.test) == "get_is_leaf"]
-    okl = False
-    if len(leaf_if) == 1:
-        st = [s for s in leaf_if[0].body if isinstance(s, (ast.Assign, ast.AugAssign))]
-        okl = len(st) == 1 and isinstance((st[0].targets[0] if isinstance(st[0], ast.Assign) else st[0].target), ast.Subscript) \
-            and src((st[0].targets[0] if isinstance(st[0], ast.Assign) else st[0].target).slice) == expr + ".counter" and is_const(st[0].value, 1) \
-            and any(x is c.loop for x in ast.walk(ast.Module(body=leaf_if[0].orelse, type_ignores=[])))
-    ctx.ob("R-TRANSL", "expression_to_matrices::leaf expression", okl,
-           "a leaf expression is the unit vector at its own index; anything else goes through its decomposition" if okl else
-           "the leaf / non-leaf split of the dense translator is not (unit weight at own index | decomposition loop)", loc(dense, dense))
-    # consumer agreement (cvxpy wrapper): checked by R-SENSE affine form
-    # ---- sparse
-    ctx.unit("expression_to_sparse_matrices")
-    cs = cons.get("expression_to_sparse_matrices")
-    if cs is None:
-        raise AnalysisError("sparse translator has no key-kind dispatch")
-    ret = [r for r in ast.walk(sparse) if isinstance(r, ast.Return)]
-    names = [e.id for e in ret[0].value.elts] if len(ret) == 1 and isinstance(ret[0].value, ast.Tuple) and len(ret[0].value.elts) == 6 else None
-    if names is None:
-        ctx.ob("R-TRANSL", "expression_to_sparse_matrices::returns six arrays", False, "does not return 6 values", loc(sparse, sparse))
-        return
-    gi, gj, gv, fi, fv, cv = names
-    # the three G arrays may be read back from one list of (row, column, value) triplets
-    triplets = None
-    comps = {}
-    for nm in (gi, gj, gv):
-        d = [s0 for s0 in flow.stmts_of(sparse, ast.Assign) if dotted(s0.targets[0]) == nm and isinstance(s0.value, ast.Call) and call_name(s0.value) == "array"
-             and s0.value.args and isinstance(s0.value.args[0], ast.ListComp)]
-        if len(d) == 1:
-            lc = d[0].value.args[0]
-            g0 = lc.generators[0]
-            if len(lc.generators) == 1 and not g0.ifs and isinstance(g0.target, ast.Tuple) and len(g0.target.elts) == 3 and isinstance(lc.elt, ast.Name) \
-                    and isinstance(g0.iter, ast.Name):
-                pos = [k for k, e in enumerate(g0.target.elts) if isinstance(e, ast.Name) and e.id == lc.elt.id]
-                if len(pos) == 1:
-                    comps[nm] = (g0.iter.id, pos[0])
-    if len(comps) == 3 and len({v[0] for v in comps.values()}) == 1 and [comps[gi][1], comps[gj][1], comps[gv][1]] == [0, 1, 2]:
-        triplets = comps[gi][0]
-    # leaf branch of the dispatch: lock-step appends of (index, weight)
-    body = cs.kinds.get("leaf", [])
-    a_i = [n for n in ast.walk(ast.Module(body=body, type_ignores=[])) if isinstance(n, ast.Call) and call_name(n) == "append" and dotted(n.func.value) == fi]
-    a_v = [n for n in ast.walk(ast.Module(body=body, type_ignores=[])) if isinstance(n, ast.Call) and call_name(n) == "append" and dotted(n.func.value) == fv]
-    ok = len(a_i) == 1 and len(a_v) == 1 and src(a_i[0].args[0]) == cs.key + ".counter" and dotted(a_v[0].args[0]) == cs.weight
-    ctx.ob("R-TRANSL", "expression_to_sparse_matrices::leaf weight", ok,
-           "(own index, coefficient) appended in lock-step" if ok else "the F index / weight lists are not extended by (key.counter, weight) once each", loc(sparse, body[0] if body else sparse))
-    st = [s for s in cs.kinds.get("const", []) if isinstance(s, ast.Assign)]
-    okc = len(st) == 1 and dotted(st[0].targets[0]) == cv and dotted(st[0].value) == cs.weight
-    ctx.ob("R-TRANSL", "expression_to_sparse_matrices::constant", okc, "the constant is the coefficient of key 1" if okc else "constant handled by %s" % [norm_stmt(s) for s in st], loc(sparse, sparse))
-    # pair branch: enumerate the paths, collecting appends
-    pbody = cs.kinds.get("pair", [])
-    un = [s for s in pbody if isinstance(s, ast.Assign) and isinstance(s.targets[0], ast.Tuple) and dotted(s.value) == cs.key]
-    if len(un) != 1:
-        ctx.ob("R-TRANSL", "expression_to_sparse_matrices::pair", False, "pair key not unpacked into two points", loc(sparse, sparse))
-        return
-    p1, p2 = [e.id for e in un[0].targets[0].elts]
-    w, ws = Rat.sym("w"), Rat.sym("ws")
-    zero = Rat(0)
-    # one unordered pair {a, b} of leaf points with indices 1 < 2: the key (a, b), the key (b, a), or both, with generic or explicitly zero weights;
-    # whatever the keys present, the translation must hold exactly one lower-triangular entry (2, 1) with half the sum of the weights
-    configs = [("only the key with the smaller index first", w, None), ("only the key with the larger index first", None, w),
-               ("both keys, generic weights", w, ws), ("both keys, the smaller-index-first one with weight 0", zero, ws),
-               ("both keys, the larger-index-first one with weight 0", w, zero)]
-    shown = {}
-    for label, w12, w21 in configs:
-        total = {}
-        detail = []
-        bad = None
-        try:
-            for (c1, c2), own, mir in (((1, 2), w12, w21), ((2, 1), w21, w12)):
-                if own is None:
-                    continue
-                got = _sparse_run(pbody, p1, p2, cs, gi, gj, gv, c1, c2, "given", triplets, own=own, mirror_val=mir)
-                detail.append("key (%d, %d): %s" % (c1, c2, "nothing" if got is None else (got if isinstance(got, str) else "(%s, %s, %s)" % got)))
-                if got is None:
-                    continue
-                if isinstance(got, str):
-                    bad = got
-                    break
-                if not (isinstance(got[0], int) and isinstance(got[1], int)) or got[0] < got[1]:
-                    bad = "entry (%s, %s) is not in the lower triangle" % (got[0], got[1])
-                    break
-                total[(got[0], got[1])] = total.get((got[0], got[1]), zero) + got[2]
-        except AnalysisError as e:
-            raise AnalysisError("sparse translator: %s" % e)
-        want = ((w12 if w12 is not None else zero) + (w21 if w21 is not None else zero)) / Rat(2)
-        total = {k: v for k, v in total.items() if not v.is_zero()}
-        okp = bad is None and ((not total and want.is_zero()) or (set(total) == {(2, 1)} and total[(2, 1)].equals(want)))
-        msg = ("the pair contributes (2, 1, %s) once" % want) if okp else \
-            "%s; the translation holds %s, expected the single lower-triangular entry (2, 1, %s) (off-diagonal weights halved, mirrored keys merged once)" % (
-                "; ".join(detail) if not bad else bad, {k: str(v) for k, v in total.items()} or "nothing", want)
-        shown[label] = "; ".join(detail)
-        ctx.ob("R-TRANSL", "expression_to_sparse_matrices::pair, %s" % label, okp, msg, loc(sparse, pbody[0]))
-    try:
-        got = _sparse_run(pbody, p1, p2, cs, gi, gj, gv, 1, 1, "self", triplets)
-    except AnalysisError as e:
-        raise AnalysisError("sparse translator: %s" % e)
-    okp = got is not None and not isinstance(got, str) and got[0] == 1 and got[1] == 1 and isinstance(got[2], Rat) and got[2].equals(w)
-    ctx.ob("R-TRANSL", "expression_to_sparse_matrices::pair, squared norm", okp,
-           "a key (p, p) contributes (i, i, weight)" if okp else "a key (p, p) contributes %s, expected (1, 1, w)" % (got if got is None or isinstance(got, str) else "(%s, %s, %s)" % got,),
-           loc(sparse, pbody[0]))
-    ctx.sample({"rule": "R-TRANSL", "sparse pair branch": shown})
-    # the MOSEK back-end uses the sparse translator only
+    n = translprog.r_translators(ctx)
     mb = [b for b in common.backends(repo) if "mosek" in b.name.lower()][0]
     used = {call_name(c2) for f in mb.methods.values() for c2 in ast.walk(f) if isinstance(c2, ast.Call) and (call_name(c2) or "").startswith("expression_to_")}
     ctx.ob("R-TRANSL", "MosekWrapper::uses the sparse translator", used == {"expression_to_sparse_matrices"},
            "every MOSEK row is built from the sparse translation" if used == {"expression_to_sparse_matrices"} else "uses %s" % sorted(used), mb.module.rel)
+    cb = [b for b in common.backends(repo) if "cvxpy" in b.name.lower()][0]
+    usedc = {call_name(c2) for f in cb.methods.values() for c2 in ast.walk(f) if isinstance(c2, ast.Call) and (call_name(c2) or "").startswith("expression_to_")}
+    ctx.ob("R-TRANSL", "CvxpyWrapper::uses the dense translator", usedc == {"expression_to_matrices"},
+           "every cvxpy expression is built from the dense translation" if usedc == {"expression_to_matrices"} else "uses %s" % sorted(usedc), cb.module.rel)
+    return n
 
 
-def _array_roles(fn):
-    roles = {}
-    for s in flow.stmts_of(fn, ast.Assign):
-        if isinstance(s, ast.Assign) and isinstance(s.targets[0], ast.Name):
-            v = s.value
-            if is_const(v) and v.value == 0:
-                roles[s.targets[0].id] = "const"
-            elif isinstance(v, ast.Call) and call_name(v) == "zeros" and v.args:
-                shape = src(v.args[0]).replace(" ", "")
-                if shape in ("(Expression.counter,)", "Expression.counter"):
-                    roles[s.targets[0].id] = "F"
-                elif shape == "(Point.counter,Point.counter)":
-                    roles[s.targets[0].id] = "G"
-    return roles
 
 
 # ---------------------------------------------------------------------------------------------------
@@ -535,188 +372,3 @@ class _Skip(Exception):
     pass
 
 
-def _sparse_run(body, p1, p2, cs, gi, gj, gv, c1, c2, mirrored, triplets=None, own=None, mirror_val=None):
-    """Abstract run of the pair branch with concrete indices c1, c2 and symbolic weights; returns the appended (row, col, value), None, or a text.
-    own / mirror_val override the weight of the visited key and of its mirrored key (mirrored == 'given')."""
-    owner = cs.owner
-    w, ws = Rat.sym("w"), Rat.sym("ws")
-    if mirrored == "self":
-        ws_val, present = w, True
-    elif mirrored == "nonzero":
-        ws_val, present = ws, True
-    elif mirrored == "zero":
-        ws_val, present = Rat(0), True
-    elif mirrored == "given":
-        ws_val, present = mirror_val, mirror_val is not None
-    else:
-        ws_val, present = None, False
-    if own is not None:
-        w = own
-        if mirrored == "self":
-            ws_val = own
-    env = {cs.weight: w, p1: ("point", 1), p2: ("point", 2)}
-    out = {"i": [], "j": [], "v": []}
-
-    dict_aliases = {owner + ".decomposition_dict"}
-    for s0 in flow.stmts_of(cs.fn, ast.Assign):
-        if len(s0.targets) == 1 and isinstance(s0.targets[0], ast.Name) and dotted(s0.value) == owner + ".decomposition_dict" \
-                and flow._single_def(cs.fn, s0.targets[0].id) is not None:
-            dict_aliases.add(s0.targets[0].id)
-
-    def is_dict(e):
-        return dotted(e) in dict_aliases
-
-    def key_of(e):
-        """'mirror' for (p2, p1), 'own' for (p1, p2) / the loop key -- through local aliases"""
-        if isinstance(e, ast.Tuple) and len(e.elts) == 2:
-            names = [dotted(x) for x in e.elts]
-            if names == [p2, p1]:
-                return "mirror"
-            if names == [p1, p2]:
-                return "own"
-        if dotted(e) == cs.key:
-            return "own"
-        if isinstance(e, ast.Name) and e.id in env:
-            v = env[e.id]
-            if v == (("point", 2), ("point", 1)):
-                return "mirror"
-            if v == (("point", 1), ("point", 2)):
-                return "own"
-        return None
-
-    def ev(e):
-        if isinstance(e, ast.Constant) and isinstance(e.value, (int, float)) and not isinstance(e.value, bool):
-            return e.value if isinstance(e.value, int) else Rat(Fraction(repr(e.value)))
-        if isinstance(e, ast.Name):
-            if e.id in env:
-                return env[e.id]
-            raise AnalysisError("unbound name %s" % e.id)
-        if isinstance(e, ast.Attribute) and e.attr == "counter" and isinstance(e.value, ast.Name) and e.value.id in (p1, p2):
-            return c1 if e.value.id == p1 else c2
-        if isinstance(e, ast.Tuple):
-            return tuple(ev(x) for x in e.elts)
-        if isinstance(e, ast.Call) and call_name(e) in ("max", "min") and isinstance(e.func, ast.Name):
-            vals = [ev(a) for a in e.args]
-            if all(isinstance(v, int) for v in vals):
-                return max(vals) if e.func.id == "max" else min(vals)
-        if isinstance(e, ast.Subscript) and is_dict(e.value):
-            k = key_of(e.slice)
-            if k == "mirror":
-                if not present:
-                    raise AnalysisError("lookup of an absent mirrored key (KeyError at run time)")
-                return ws_val
-            if k == "own":
-                return w
-        if isinstance(e, ast.Call) and call_name(e) == "get" and isinstance(e.func, ast.Attribute) and is_dict(e.func.value) and e.args:
-            k = key_of(e.args[0])
-            default = ev(e.args[1]) if len(e.args) > 1 else None
-            if k == "mirror":
-                return ws_val if present else default
-            if k == "own":
-                return w
-        if isinstance(e, ast.IfExp):
-            return ev(e.body) if truth(e.test) else ev(e.orelse)
-        if isinstance(e, ast.BinOp):
-            a, b = ev(e.left), ev(e.right)
-            if isinstance(a, int) and isinstance(b, int) and isinstance(e.op, (ast.Add, ast.Sub, ast.Mult)):
-                return {ast.Add: a + b, ast.Sub: a - b, ast.Mult: a * b}[type(e.op)]
-            ra = Rat(a) if isinstance(a, int) else a
-            rb = Rat(b) if isinstance(b, int) else b
-            if isinstance(ra, Rat) and isinstance(rb, Rat):
-                if isinstance(e.op, ast.Add):
-                    return ra + rb
-                if isinstance(e.op, ast.Sub):
-                    return ra - rb
-                if isinstance(e.op, ast.Mult):
-                    return ra * rb
-                if isinstance(e.op, ast.Div):
-                    return ra / rb
-        if isinstance(e, ast.UnaryOp) and isinstance(e.op, ast.USub):
-            v = ev(e.operand)
-            return -v
-        raise AnalysisError("expression `%s` outside the analysed fragment" % src(e))
-
-    def truth(t):
-        if isinstance(t, ast.BoolOp):
-            vals = [truth(v) for v in t.values]
-            return all(vals) if isinstance(t.op, ast.And) else any(vals)
-        if isinstance(t, ast.UnaryOp) and isinstance(t.op, ast.Not):
-            return not truth(t.operand)
-        if isinstance(t, ast.Compare) and len(t.ops) == 1:
-            op = t.ops[0]
-            if isinstance(op, (ast.In, ast.NotIn)):
-                c = t.comparators[0]
-                base = c.func.value if isinstance(c, ast.Call) and call_name(c) == "keys" else c
-                k = key_of(t.left)
-                if is_dict(base) and k is not None:
-                    r = present if k == "mirror" else True
-                    return r if isinstance(op, ast.In) else not r
-            a, b = ev(t.left), ev(t.comparators[0])
-            if isinstance(a, int) and isinstance(b, int):
-                return {ast.Eq: a == b, ast.NotEq: a != b, ast.Lt: a < b, ast.LtE: a <= b, ast.Gt: a > b, ast.GtE: a >= b}[type(op)]
-            if isinstance(a, (Rat, int)) and isinstance(b, (Rat, int)) and isinstance(op, (ast.Eq, ast.NotEq)):
-                ra = Rat(a) if isinstance(a, int) else a
-                rb = Rat(b) if isinstance(b, int) else b
-                z = ra - rb
-                eq = z.is_zero()          # a symbolic weight is generic: non-zero
-                return eq if isinstance(op, ast.Eq) else not eq
-            if (a is None or b is None) and isinstance(op, (ast.Is, ast.IsNot, ast.Eq, ast.NotEq)):
-                same = a is None and b is None
-                return same if isinstance(op, (ast.Is, ast.Eq)) else not same
-        if isinstance(t, ast.Constant) and t.value is None:
-            return False
-        v = ev(t)
-        if isinstance(v, Rat):
-            return not v.is_zero()
-        if v is None:
-            return False
-        raise AnalysisError("test `%s` outside the analysed fragment" % src(t))
-
-    def run(stmts):
-        for st in stmts:
-            if isinstance(st, ast.If):
-                run(st.body if truth(st.test) else st.orelse)
-            elif isinstance(st, ast.Assign) and len(st.targets) == 1:
-                tg = st.targets[0]
-                if isinstance(tg, ast.Tuple) and dotted(st.value) == cs.key:
-                    continue          # point1, point2 = key
-                v = ev(st.value)
-                if isinstance(tg, ast.Name):
-                    env[tg.id] = v
-                elif isinstance(tg, ast.Tuple) and isinstance(v, tuple) and len(v) == len(tg.elts):
-                    for t2, v2 in zip(tg.elts, v):
-                        env[t2.id] = v2
-                else:
-                    raise AnalysisError("assignment `%s`" % norm_stmt(st)[:50])
-            elif isinstance(st, (ast.Assert, ast.Pass)):
-                continue
-            elif isinstance(st, ast.Continue):
-                raise _Skip()
-            elif isinstance(st, ast.Expr) and isinstance(st.value, ast.Call) and call_name(st.value) == "append":
-                tgt = dotted(st.value.func.value)
-                v = ev(st.value.args[0])
-                if triplets is not None and tgt == triplets and isinstance(v, tuple) and len(v) == 3:
-                    out["i"].append(v[0])
-                    out["j"].append(v[1])
-                    out["v"].append(Rat(v[2]) if isinstance(v[2], int) else v[2])
-                elif tgt == gv:
-                    out["v"].append(Rat(v) if isinstance(v, int) else v)
-                elif tgt == gi:
-                    out["i"].append(v)
-                elif tgt == gj:
-                    out["j"].append(v)
-                else:
-                    raise AnalysisError("append to %s in the pair branch" % tgt)
-            else:
-                raise AnalysisError("statement `%s` outside the analysed fragment" % norm_stmt(st)[:60])
-
-    try:
-        run(body)
-    except _Skip:
-        pass
-    n = {len(out["i"]), len(out["j"]), len(out["v"])}
-    if n == {0}:
-        return None
-    if n == {1}:
-        return (out["i"][0], out["j"][0], out["v"][0])
-    return "unbalanced appends %s" % {k: len(v) for k, v in out.items()}
